@@ -4,7 +4,7 @@
    relation [R]; hence the monitor accepts every trace the model can produce. *)
 From WK Require Import Base.Base Model.KV Gen.Consts_C07 Model.MsgStore Model.MsgStore_C07
      Proof.KV Proof.MsgStore_base Proof.MsgStore_rel Proof.MsgStore_reads Proof.MsgStore_frame
-     Proof.MsgStore_mut Proof.MsgStore_step Proof.MsgStore_ops.
+     Proof.MsgStore_mut Proof.MsgStore_step Proof.MsgStore_ops Proof.MsgStore_batch.
 From Coq Require Import Sorting.Permutation Sorting.Sorted.
 
 Section C07.
@@ -19,10 +19,21 @@ Section C07.
   Notation step_dump := (step_dump F f_empty f_may f_add).
   Notation run := (run F f_empty f_may f_add).
 
-  (* the histories the theorems talk about: channels of the harness' table; the
-     multi-channel StoreAppendBatch is not covered by the refinement proof *)
+  (* the histories the refinement theorems talk about: every channel an op (or an
+     item of a multi-channel StoreAppendBatch) names is in the harness' table *)
+  Definition op_okb (o : op) : Prop :=
+    match o with
+    | OCBatch items => Forall (fun it : item => In (fst (fst it)) all_chans) items
+    | _ => In (op_chan o) all_chans
+    end.
+
+  (* the same without the multi-channel StoreAppendBatch (the C08 uniqueness
+     theorems exclude it: C08-K1) *)
   Definition op_ok (o : op) : Prop :=
     In (op_chan o) all_chans /\ match o with OCBatch _ => False | _ => True end.
+
+  Lemma op_ok_b o : op_ok o -> op_okb o.
+  Proof. intros [H1 H2]. destruct o; try contradiction; exact H1. Qed.
 
   (* ---- the initial state ----------------------------------------------------------------------------------- *)
 
@@ -88,16 +99,18 @@ Section C07.
   Proof. intros [Hk _]. split; [exact Hk|]. intros c H. discriminate. Qed.
 
   Lemma step_mut st s o :
-    R st s -> op_ok o -> is_read o = false ->
+    R st s -> op_okb o -> is_read o = false ->
     exists s', spec_mutate s o (snd (step st o)) = Some s' /\ R (fst (step st o)) s'.
   Proof.
-    intros HR [Hc Hb] Hr. destruct o; try discriminate Hr; try contradiction; cbn [op_chan] in Hc; cbn [MsgStore.step].
+    intros HR Hc Hr. destruct o; try discriminate Hr; cbn [op_okb op_chan] in Hc; cbn [MsgStore.step].
     - pose proof (step_append F f_may f_add st s c mode base recs HR Hc) as H.
       destruct (Append F f_may f_add st c recs mode base) as [st' r]. exact H.
     - pose proof (step_apply F f_empty f_may f_add st s c base recs ck ep HR Hc) as H.
       destruct (ApplyFetch F f_may f_add st c base recs ck ep) as [st' r]. exact H.
     - pose proof (step_capp F f_may f_add st s c mode recs HR Hc) as H.
       destruct (CAppend F f_may f_add st c recs mode) as [st' r]. exact H.
+    - pose proof (step_cbatch F f_may f_add st s items HR Hc) as H.
+      destruct (CBatch F f_may f_add st items) as [st' rs]. exact H.
     - pose proof (step_trunc F f_empty f_may f_add st s c fromSeq HR) as H.
       destruct (TruncateFrom F st c fromSeq) as [st' r]. exact H.
     - pose proof (step_ctrunc F f_empty f_may f_add st s c to HR) as H.
@@ -136,7 +149,7 @@ Section C07.
   Proof. intros H1 H2 H3. cbn [spec_step]. rewrite H1, H2, H3. reflexivity. Qed.
 
   Theorem step_sim compact st s o :
-    R st s -> op_ok o ->
+    R st s -> op_okb o ->
     let '(st', x, ds) := step_dump compact st o in
     exists s', spec_step s (E o x ds) = Some s' /\ R st' s'.
   Proof.
@@ -155,14 +168,22 @@ Section C07.
       rewrite Hds. exists s. split; [apply spec_step_read; assumption|exact H1].
     - destruct (step_mut st s o HR Hok Hr) as [s' [H1 H2]].
       destruct (step st o) as [st1 x]. cbn [fst snd] in *.
-      destruct Hok as [_ Hb].
-      assert (Hcase : (o = OReopen) \/ (o <> OReopen /\ (forall items, o <> OCBatch items) /\ is_mutation o = true)).
-      { unfold is_read in Hr. destruct o; cbn in Hr |- *; try discriminate; try contradiction;
-          try (right; split; [discriminate|]; split; [intros; discriminate|reflexivity]). left. reflexivity. }
-      destruct Hcase as [->|[Hn1 [Hn2 Hm]]].
+      assert (Hcase : (o = OReopen) \/ (exists items, o = OCBatch items)
+                      \/ (o <> OReopen /\ (forall items, o <> OCBatch items) /\ is_mutation o = true)).
+      { unfold is_read in Hr. destruct o; cbn in Hr |- *; try discriminate;
+          try (right; right; split; [discriminate|]; split; [intros; discriminate|reflexivity]).
+        - right. left. eexists. reflexivity.
+        - left. reflexivity. }
+      destruct Hcase as [->|[[items ->]|[Hn1 [Hn2 Hm]]]].
       + destruct (dump_chans_ok all_chans st1 s' H2) as [H3 H4].
         destruct (dump_chans F st1 all_chans) as [st2 ds]. cbn [fst snd] in *.
         exists s'. split; [apply spec_step_mut; [reflexivity|exact H1|exact H4]|exact H3].
+      + destruct compact.
+        * exists s'. split; [apply spec_step_mut; [reflexivity|exact H1|reflexivity]|exact H2].
+        * destruct (dump_chans_ok all_chans st1 s' H2) as [H3 H4].
+          destruct (dump_chans F st1 all_chans) as [st2 ds]. cbn [fst snd] in *.
+          exists s'. split; [apply spec_step_mut; [reflexivity|exact H1|]|exact H3].
+          destruct x; exact H4.
       + assert (Hds : (match o with
                        | OReopen => dump_chans F st1 all_chans
                        | OCBatch _ => if compact then (st1, []) else dump_chans F st1 all_chans
@@ -190,7 +211,7 @@ Section C07.
     end.
 
   Lemma run_sim compact ops : forall st s,
-    R st s -> Forall op_ok ops ->
+    R st s -> Forall op_okb ops ->
     spec_run s (entries ops (snd (run compact st ops))) = true
     /\ exists s', R (fst (run compact st ops)) s'.
   Proof.
@@ -206,13 +227,13 @@ Section C07.
 
   (* C07: the monitor accepts every trace of the model *)
   Theorem model_satisfies_monitor compact ops :
-    Forall op_ok ops ->
+    Forall op_okb ops ->
     spec_run as_init (entries ops (snd (run compact (st_init F f_empty) ops))) = true.
   Proof. intro H. apply (run_sim compact ops _ _ R_init H). Qed.
 
   (* every reachable state is related to some state of the plain logs *)
   Theorem reachable_R compact ops :
-    Forall op_ok ops -> exists s, R (fst (run compact (st_init F f_empty) ops)) s.
+    Forall op_okb ops -> exists s, R (fst (run compact (st_init F f_empty) ops)) s.
   Proof. intro H. apply (run_sim compact ops _ _ R_init H). Qed.
 
   (* ---- corollaries ------------------------------------------------------------------------------------------------------ *)
@@ -299,7 +320,7 @@ Qed.
 
 (* the executable instance used by the correspondence check *)
 Lemma monitor_zero_on_model (compact : bool) (ops : list op) (kv : list kvent) :
-  Forall op_ok ops ->
+  Forall op_okb ops ->
   C07_monitor (C07Case compact (entries ops (snd (xrun compact ops))) kv) = 0.
 Proof.
   intro H. unfold C07_monitor. cbn [c_steps]. unfold xrun, xinit.
